@@ -166,7 +166,7 @@ Definition dec_err_ok {X} (r : res X) : Prop :=
 Lemma read_integer_typed s : dec_err_ok (read_integer s).
 Proof.
   unfold read_integer.
-  destruct (match s with 45%N :: r => (true, r) | _ => (false, s) end) as [neg s1].
+  destruct (match s with c :: r => if (c =? 45)%N then (true, r) else (false, s) | [] => (false, s) end) as [neg s1].
   destruct (read_digits_until 101%N s1 []) as [[ds rest]|]; [|cbn; auto].
   destruct ds as [|d0 dr]; [cbn; auto|].
   destruct ((d0 =? 48)%N && negb match dr with [] => true | _ => false end); [cbn; auto|].
